@@ -454,6 +454,15 @@ def addTets (g : Grid α) : Cav → List Int → St × Cav
     | (.ok, c) => addTets g c rest
     | r => r
 
+/-- add a list of tris the way the C's enlarge loops do: stop at the first status that is not `ok` and as soon as
+    the state is no longer `unknown` -/
+def addTris (g : Grid α) : Cav → List Int → St × Cav
+  | c, [] => (.ok, c)
+  | c, t :: rest =>
+    match addTri g c t with
+    | (.ok, c) => if c.state ≠ .unknown then (.ok, c) else addTris g c rest
+    | r => r
+
 /-! ### visibility -/
 
 section vis
@@ -770,6 +779,32 @@ def valid3Bnd (m : Mesh3 α) : Bool := let bs := m.triSideKeys; bs.all fun k => 
 /-- every vertex is used by a tet -/
 def valid3Used (m : Mesh3 α) : Bool :=
   (List.range m.xyz.length).all fun v => m.tets.any fun t => t.nodes.contains (v : Int)
+
+/-- sorting network of `sort3` with the parity of the permutation it performed: `(ascending triple, ±1)` -/
+def sort3s (a b c : Int) : (Int × Int × Int) × Int :=
+  let r1 : Int × Int × Int := if a ≤ b then (a, b, 1) else (b, a, -1)
+  let r2 : Int × Int × Int := if r1.2.1 ≤ c then (r1.2.1, c, r1.2.2) else (c, r1.2.1, -r1.2.2)
+  let r3 : Int × Int × Int := if r1.1 ≤ r2.1 then (r1.1, r2.1, r2.2.2) else (r2.1, r1.1, -r2.2.2)
+  ((r3.1, r3.2.1, r2.2.1), r3.2.2)
+
+/-- oriented faces of all tets / the tris as oriented faces -/
+def Mesh3.tetFaceList (m : Mesh3 α) : List Face := m.tets.flatMap tetFaces
+def Mesh3.triFaceList (m : Mesh3 α) : List Face := m.tris.map fun t => ⟨t.n0, t.n1, t.n2⟩
+
+/-- signed multiplicity of the unordered face `k`: tet faces count with the parity of their orientation, tris with
+    the opposite sign -/
+def signedCount (tf bf : List Face) (k : Int × Int × Int) : Int :=
+  ((tf.filter fun f => (sort3s f.n0 f.n1 f.n2).1 = k).map fun f => (sort3s f.n0 f.n1 f.n2).2).sum -
+  ((bf.filter fun f => (sort3s f.n0 f.n1 f.n2).1 = k).map fun f => (sort3s f.n0 f.n1 f.n2).2).sum
+
+/-- the combinatorial orientation clause: on every unordered face the orientations cancel — the two tets of an
+    interior face see it with opposite orientation, a boundary tri has the orientation of the tet face it closes.
+    (Given `valid3Face` this is exactly that statement; geometrically it follows from positive volumes, which is
+    out of reach, so it is a separate executable clause.) -/
+def valid3Orient (m : Mesh3 α) : Bool :=
+  let tf := m.tetFaceList
+  let bf := m.triFaceList
+  (tf ++ bf).all fun f => signedCount tf bf (sort3s f.n0 f.n1 f.n2).1 == 0
 
 /-- C01 for a 3-D mesh -/
 def Valid3 (m : Mesh3 α) : Bool :=
